@@ -983,6 +983,12 @@ where
                 }
             };
 
+            // A previous call on this thread may have unwound out of `format_event`
+            // (e.g. a panicking `Debug` implementation whose panic the caller caught)
+            // before reaching the `clear` at the end of this closure. Never let what
+            // it left behind leak into this event's output.
+            buf.clear();
+
             let ctx = self.make_ctx(ctx, event);
             if self
                 .fmt_event
